@@ -41,7 +41,14 @@ def run(ctx):
     max_exh = 4 if tier == "quick" else 5
     n_random = 300 if tier == "quick" else 4000
 
+    def biggest(dc):
+        """largest number of daughters of one decay (a multiplicity is a count: this is cheap whatever the counts are)"""
+        return max((sum(v.daughters.values()) for v in dc.decays.values()), default=0)
+
     def one(dc, stable, label, perm=None, raw=None):
+        if biggest(dc) > 10 ** 5:
+            # a chain whose counts have been blown up by an earlier call that modified it in place: reported there, not used again
+            return False
         case = {"kind": "flatten", "label": label, "mother": dc.mother, "stable": sorted(stable), "stable_given_as": type(raw).__name__ if raw is not None else "list",
                 "decays": [[k, mode_canon_py(v)] for k, v in dc.decays.items()]}
         before = canon_json(case["decays"])
@@ -53,6 +60,10 @@ def run(ctx):
             res.violation(f"flatten raised {type(e).__name__}: {e}", case, clause="flatten")
             res.case()
             return True
+        if biggest(dc) > 10 ** 5 or sum(fl.top_level_decay().daughters.values()) > 10 ** 6:
+            res.violation("flatten changed the original chain (the multiplicities of its decays have grown beyond anything the chain held)", case, clause="original unchanged")
+            res.case()
+            return False
         after = canon_json([[k, mode_canon_py(v)] for k, v in dc.decays.items()])
         got_bf, got_fs = fl.bf, fl.top_level_decay().daughters.to_list()
         exact = isinstance(want_bf, Fraction)
@@ -154,7 +165,11 @@ def run(ctx):
         if intact and i % 3 == 0:
             # the chain edited through its public mapping after it has been flattened: a so-far stable particle is given a decay,
             # then a decaying particle is made stable again; every later answer describes the chain as it is then
+            snap_ = canon_json([[k, mode_canon_py(v)] for k, v in dc.decays.items()])
             _ = dc.visible_bf
+            if biggest(dc) > 10 ** 5 or canon_json([[k, mode_canon_py(v)] for k, v in dc.decays.items()]) != snap_:
+                res.violation("visible_bf changed the chain it was asked about", {"kind": "flatten", "label": "history", "mother": dc.mother, "call": "visible_bf"}, clause="original unchanged")
+                continue
             leaves = sorted({d for v in dc.decays.values() for d in v.daughters.to_list()} - set(dc.decays))
             if leaves:
                 leaf = rng.choice(leaves)
@@ -165,13 +180,14 @@ def run(ctx):
                     del dc.decays[gone]
                     one(dc, [], "history:decay-removed")
     # stable set given as other iterables
-    dc = build_chain([("A", ["B", "B", "c"]), ("B", ["d", "E"]), ("E", ["f", "f"])], rng, exact=True)
+    # (a fresh chain for every call: a chain that a call has modified is not used again, see `one`)
     for st in (("B",), {"B"}, ["E"], "E", {"E": 1}, frozenset({"B", "E"}), "B E", ("E", "B")):
+        dc = build_chain([("A", ["B", "B", "c"]), ("B", ["d", "E"]), ("E", ["f", "f"])], rng, exact=True)
         # a particle is kept stable when `name in container` holds for the container as given (for a str: as a substring)
         members = [k for k in dc.decays if k != dc.mother and k in st]
         one(dc, members, "iterable-kinds", raw=st)
-    dc = build_chain([("D*+", ["D0", "pi+"]), ("D0", ["K_S0", "pi0", "pi0"]), ("K_S0", ["pi+", "pi-"]), ("pi0", ["gamma", "gamma"])], rng, exact=True)
     for st in ("pi0", "K_S0 pi0", "D0", ("pi0",), frozenset({"K_S0"}), {"D0": 1}, "pi", "K_S0,pi0"):
+        dc = build_chain([("D*+", ["D0", "pi+"]), ("D0", ["K_S0", "pi0", "pi0"]), ("K_S0", ["pi+", "pi-"]), ("pi0", ["gamma", "gamma"])], rng, exact=True)
         members = [k for k in dc.decays if k != dc.mother and k in st]
         one(dc, members, "iterable-kinds", raw=st)
     # names are plain strings: a name that some matching scheme would read as a pattern (`K*0`, `D*+`, `a?c`, `[ab]`, `B.`) designates
@@ -181,10 +197,10 @@ def run(ctx):
             ("pi+", ["pi", "pii"]), ("(K)", ["K"]), ("X|Y", ["X", "Y"]), ("K\\d", ["K1"])]
     for pat, matches in fams:
         for x in matches if tier == "thorough" else matches[:2]:
-            dc = build_chain([("M", [pat, x, "pi+"]), (pat, ["K+", "pi-"]), (x, ["pi+", "pi-", "pi0"]), ("pi0", ["gamma", "gamma"])], rng, exact=True)
             for st in ([pat], [x], [pat, x], [], [pat, "pi0"]):
-                one(dc, st, "pattern-like-names")
-                one(dc, st, "pattern-like-names", raw=rng.choice([tuple, set, frozenset])(st))
+                for raw_ in (None, rng.choice([tuple, set, frozenset])(st)):
+                    dc = build_chain([("M", [pat, x, "pi+"]), (pat, ["K+", "pi-"]), (x, ["pi+", "pi-", "pi0"]), ("pi0", ["gamma", "gamma"])], rng, exact=True)
+                    one(dc, st, "pattern-like-names", raw=raw_)
             res.count("pattern_like_name_chains")
     batch.run()
     return res.done()
